@@ -214,6 +214,52 @@ def c17_race_probe(res, workdir, rseed, rargs, opts):
     return True
 
 
+def c17_confirm(res, workdir):
+    """`noMissedFire` is the one oracle with a deadline in it ("due for well over 60 ms and not fired"):
+    a stall of the machine (this sandbox's clock and scheduler do stall) can produce it on code that
+    is right.  Such a case is run again, alone, twice; it is reported if it fails again, otherwise it
+    is recorded in the evidence as not reproduced.  (Safety oracles are never re-run.)"""
+    import json, os
+    from checklib_main import run_overlay_test, run_harness, run_driver, read_pairs
+    keep, rerun = [], []
+    for item in res.failing:
+        oracle, inp, ver = item
+        if oracle == "noMissedFire" and isinstance(inp.get("go"), dict) and not inp["go"].get("hang") and not inp["go"].get("panic"):
+            rerun.append(item)
+        else:
+            keep.append(item)
+    for n, (oracle, inp, ver) in enumerate(rerun[:6]):
+        case = {k: v for k, v in inp.items() if k not in ("go",)}
+        again = False
+        for attempt in range(2):
+            tag = "confirm-%d-%d" % (n, attempt)
+            cf = os.path.join(workdir, tag + ".case.jsonl")
+            with open(cf, "w") as f:
+                f.write(json.dumps(case) + "\n")
+            if inp.get("impl") == "mcrew":
+                o = MCREW_TIMERS_OVERLAY
+                lines, okh = run_overlay_test(o["pkg"], o["files"], o["test"], "timersgen", [], workdir, tag, res.log, cases_file=cf)
+            else:
+                lines, _, okh = run_harness("siotimers", ["-n", "0", "-corpus", cf], workdir, tag, res.log, timeout=300)
+            outp = run_driver(lines, res.log) if okh else None
+            if outp is None:
+                again = True
+                break
+            for i2, v2 in read_pairs(lines, outp):
+                if (v2.get("prop") or {}).get("noMissedFire") is False:
+                    again = True
+                    inp, ver = i2, v2
+            if again:
+                break
+        if again:
+            keep.append((oracle, inp, ver))
+        else:
+            res.extra.setdefault("coverage", {}).setdefault("not_reproduced_when_run_alone", []).append(
+                {"oracle": oracle, "impl": inp.get("impl"), "script": inp.get("script")})
+    keep.extend(rerun[6:])
+    res.failing = keep
+
+
 SIGNATURES = {
     "c17-sio-timer-goroutine-vs-crew-loop-race": sig_c17_race,
     "c10-props-shallow-copy": sig_c10_props,
@@ -441,6 +487,7 @@ PROPS = {
         },
         "analyze": analyze_generic,
         "oracles": ["logAccepted", "firedOnce", "neverEarly", "neverBoth", "tableIsPending", "tableLive", "noMissedFire", "responsive"],
+        "confirm": c17_confirm,
         "probes": [],
         "rule": TIMERS_RULE,
     },
